@@ -833,9 +833,11 @@ func ruleReset(c *Ctx, m *ttModel) {
 // The key identifies "one client" (C17: two representations of one address make two clients, whose overlapping tunnels are
 // counted twice) and is what the location lookup classifies (C20: a masked or otherwise transformed address is classified
 // instead of the client's). Accepted derivations, from a net.Addr parameter or a RemoteAddr() result A:
-//   ParseAddr(host of SplitHostPort(A.String()))         — the textual form of an IPv4-mapped address is the IPv4 form
-//   ParseAddrPort(A.String()).Addr()
-//   X.Unmap() where X is any of the above, A.AddrPort().Addr(), or AddrFromSlice(A.IP)
+//
+//	ParseAddr(host of SplitHostPort(A.String()))         — the textual form of an IPv4-mapped address is the IPv4 form
+//	ParseAddrPort(A.String()).Addr()
+//	X.Unmap() where X is any of the above, A.AddrPort().Addr(), or AddrFromSlice(A.IP)
+//
 // Anything else (AddrPort().Addr() without Unmap, Prefix/Masked/Next/WithZone …) is reported.
 func ruleKeyAddr(c *Ctx, m *ttModel, rule string) {
 	p := c.P
